@@ -484,7 +484,7 @@ def _slow_filter(devs, i, alt, label):
 def _focus_filter(devs, i, alt, label):
     if not devs:
         return True
-    return label.startswith('L:') and i <= devs[0][0] + 60
+    return label.startswith('L:') and i <= devs[0][0] + 25
 
 
 def run(ck):
@@ -510,7 +510,7 @@ def run(ck):
         r3 = explore(ck, exec_c02, configs_deep(), 2, max_execs=1500000)
         ck.note('two_deviation_exploration', r3)
         # focused: any first deviation (fault / close / switch at any line), then one more switch at a line of the traced
-        # functions within the next 60 points - the interleaving of an error or close path with the other threads
+        # functions within the next 25 points - the interleaving of an error or close path with the other threads
         r4 = explore(ck, exec_c02, [dict(c, name=c['name'] + ':focus2') for c in configs_lines()], 2,
                      child_filter=_focus_filter, max_execs=2500000)
         ck.note('focused_two_deviations_line_level', r4)
